@@ -348,6 +348,12 @@ Definition join_comments (trunc : str) (tr : option str) : str :=
   end.
 Definition truthy (o : option str) : option str :=
   match o with Some [] => None | x => x end.
+(** _join_comments: a value wrapped in several comments of one kind keeps all of them *)
+Definition joinc (outer : option str) (inner : str) : str :=
+  match truthy outer with
+  | None => inner
+  | Some o => match inner with [] => o | _ => o ++ [10%N] ++ inner end
+  end.
 
 (** the value a comment wrapper wraps, for the sole-argument test of
     pretty_call_alt (806-815): type in (list, dict, tuple) exactly *)
@@ -570,8 +576,8 @@ Fixpoint pretty_pv (v : pyval) (ctx : pctx) (cm tr : option str) {struct v} : do
                        pretty_pv x (with_strategy (nested_call ctx) MIndented) None None,
                        fun _ : unit => pretty_pv x (with_strategy (nested_call ctx) MPlain) None None)) kvs in
   match v with
-  | VCommented x c => pretty_pv x ctx (Some c) tr
-  | VTrailing x c => pretty_pv x ctx cm (Some c)
+  | VCommented x c => pretty_pv x ctx (Some (joinc cm c)) tr
+  | VTrailing x c => pretty_pv x ctx cm (Some (joinc tr c))
   | VInt z => finish (num_d ctx T_NUMBER_INT n_int (repr_int z) None)
   | VBool b => finish (tok T_KEYWORD_CONSTANT (if b then s_True else s_False))
   | VNone => finish (tok T_KEYWORD_CONSTANT s_None)
